@@ -649,6 +649,65 @@ theorem Sim.quiescent (hC : C.Laws Ok) {b : BNet V α} {net : Net V} (h : Sim C 
   · have : (net.cl j).exec = (b.cl j).exec := by rw [h.cl j]; rfl
     rw [this]; exact e
 
+
+/-! ### nothing gets stuck in a receiver (the cheap half of byte-level progress) -/
+
+/-- In every state related by `Sim` no receiver holds a complete frame: whatever was delivered completely has been
+cut off and handled within the read that completed it (C04's invariant `Framed`). -/
+theorem Sim.no_complete_frame_buffered {b : BNet V α} {net : Net V} {pu pd : Nat → List (Msg V)}
+    (h : Sim C b net pu pd) (c : Nat) :
+    ¬ Spec.hasFrame (b.busRx c).buffer ∧ ¬ Spec.hasFrame (b.cliRx c).buffer :=
+  ⟨framed_noFrame _ (h.busOk c).2, framed_noFrame _ (h.cliOk c).2⟩
+
+theorem busHandle_up (b : BNet V α) (c : Nat) (raw : Bytes) :
+    (b.busHandle C c raw).upWire = b.upWire ∧ (b.busHandle C c raw).busRx = b.busRx := by
+  unfold BNet.busHandle
+  cases C.dec raw with
+  | none => exact ⟨rfl, rfl⟩
+  | some x =>
+    simp only
+    cases (x.withSender c).dest with
+    | none => exact ⟨rfl, rfl⟩
+    | some d => simp only; split <;> exact ⟨rfl, rfl⟩
+
+theorem busFold_up (c : Nat) (raws : List Bytes) (b : BNet V α) :
+    (raws.foldl (fun acc raw => acc.busHandle C c raw) b).upWire = b.upWire ∧
+    (raws.foldl (fun acc raw => acc.busHandle C c raw) b).busRx = b.busRx := by
+  induction raws generalizing b with
+  | nil => exact ⟨rfl, rfl⟩
+  | cons r t ih =>
+    obtain ⟨h1, h2⟩ := ih (b.busHandle C c r)
+    obtain ⟨g1, g2⟩ := busHandle_up (C := C) b c r
+    exact ⟨h1.trans g1, h2.trans g2⟩
+
+/-- A read that takes everything queued on client `c`'s link to the bus leaves that link EMPTY: nothing on the
+wire, nothing in the bus's buffer - every message written so far has surfaced at the bus. -/
+theorem Sim.read_all_empties_up (hC : C.Laws Ok) (A : Auth α) (w : World V) {b : BNet V α} {net : Net V}
+    (h : Sim C b net noPre noPre) (hok : ∀ m, m ∈ b.sent → Ok m) {c : Nat} (hc : c < b.n) :
+    (bstep C A w b (.readBus c (b.upWire c).length)).upWire c = [] ∧
+    ((bstep C A w b (.readBus c (b.upWire c).length)).busRx c).buffer = [] := by
+  simp only [bstep, hc, if_true]
+  obtain ⟨h1, h2⟩ := busFold_up (C := C) c
+    (rawMsgs (Proto.step A (b.busRx c) (List.take (b.upWire c).length (b.upWire c))).2)
+    { b with upWire := fun i => if i = c then (b.upWire c).drop (b.upWire c).length else b.upWire i,
+             busRx := fun i => if i = c then
+               (Proto.step A (b.busRx c) ((b.upWire c).take (b.upWire c).length)).1 else b.busRx i }
+  rw [h1, h2]
+  simp only [if_true, List.drop_length, List.take_length, true_and]
+  obtain ⟨tail, hup, hwire⟩ := h.upL c
+  simp only [noPre, List.nil_append] at hup
+  rw [step_auth A _ _ (h.busOk c).1]
+  obtain ⟨_, g2, _⟩ := binStep_frames (b.busRx c) (b.upWire c) (h.busOk c).2
+  rw [g2, hwire]
+  have hwf : ∀ m ∈ tail.map C.enc, Spec.WellFormed m := by
+    intro m hm
+    obtain ⟨x, hx, rfl⟩ := List.mem_map.mp hm
+    exact hC.wellformed x (hok x (h.sub c x (Or.inl (by rw [hup]; exact hx))))
+  have := frames_flatten_wellFormed (tail.map C.enc) hwf []
+  rw [List.append_nil, frames_nil] at this
+  show (Spec.frames (tail.map C.enc).flatten).2 = []
+  rw [this]
+
 end
 
 end Txdbus.Net
